@@ -577,20 +577,27 @@ class WalletKey(object):
         else:
             return self._balance
 
+    def __deepcopy__(self, memo):
+        # Database session and rows are shared, the attributes are copied: a copy can be changed without
+        # changing the key object cached by the wallet
+        result = self.__class__.__new__(self.__class__)
+        result.__dict__.update(self.__dict__)
+        return result
+
     def public(self):
         """
         Return current key as public WalletKey object with all private information removed
 
         :return WalletKey:
         """
-        pub_key = self
+        pub_key = deepcopy(self)
         pub_key.is_private = False
         pub_key.key_private = None
-        if self.key():
-            pub_key.wif = self.key().wif()
-        if self._hdkey_object:
-            self._hdkey_object = pub_key._hdkey_object.public()
-        self._dbkey = None
+        if pub_key.key():
+            pub_key.wif = pub_key.key().wif()
+        if pub_key._hdkey_object:
+            pub_key._hdkey_object = pub_key._hdkey_object.public()
+        pub_key._dbkey = None
         return pub_key
 
     def as_dict(self, include_private=False):
